@@ -12,9 +12,18 @@ Three generators:
             streams a seeded rng would practically never produce;
   G-bad     a recorded stream is truncated or has one draw of the wrong kind and is replayed strictly:
             the implementation stops there and the model must answer bad_input.
+  G-gen-u   the class draw is COMPUTED by the model (kind 25): before forwarding `choice` the proxy clones the state
+            of the bit generator and asks the clone for `random()` - the one double u that numpy's choice is
+            about to consume -, records u, forwards the call and checks that the real generator's state then
+            equals the clone's. The model gets the three user probabilities and the u's; it normalises the
+            probabilities (prio_probs), runs numpy's float cumsum / division / right-side search (choice_float)
+            and must reproduce self.priority_probs and every priority the real generator produced. In a third
+            of these cases the proxy first SETS the PCG64 state so that the next double is a float cdf entry or
+            one of its 2^-53 grid neighbours (boundary u's that a seeded run would never hit).
 S-stat (no model involved) are STATISTICAL TESTS over long seeded runs, reported in `dist`; they only
 become hits when grossly violated."""
 import collections
+import copy
 import math
 from fractions import Fraction as F
 
@@ -29,6 +38,7 @@ from eudoxia.workload.workload import WorkloadGenerator
 ID = 'C15'
 BRIDGE_IMPORTS = 'From Eudoxia Require Import Model.Generator.\n'
 KIND = 15
+KIND_U = 25
 BRIDGE = [
     ('gen_ladder', 'ext_gen_ladder = map rung_row ladder', 'reflexivity.'),
     ('gen_query_proto', 'ext_gen_query_proto = (r_cpu query_rung, law_name (r_law query_rung), r_read query_rung)',
@@ -36,20 +46,34 @@ BRIDGE = [
     ('gen_clip', 'ext_gen_clip = clip_consts', 'reflexivity.'),
     ('gen_source', 'ext_gen_source = generator_source', 'reflexivity.'),
     ('priorities', 'In (Query, query_value) ext_priorities', 'simpl; tauto.'),
+    ('priority_values', 'In (Interactive, nth 0 priority_values 0%Z) ext_priorities /\\ '
+     'In (Query, nth 1 priority_values 0%Z) ext_priorities /\\ In (Batch, nth 2 priority_values 0%Z) ext_priorities',
+     'simpl; tauto.'),
     ('law_names', 'forall r, In r (query_rung :: ladder) -> In (law_name (r_law r)) ext_law_names',
      'intros r H; simpl in H; repeat (destruct H as [H|H]; [subst r; simpl; tauto|]); destruct H.'),
 ]
 ASSUMPTIONS = [
-    'the generator is a function of its draw stream: only the values returned by rng.choice / rng.normal (recorded by '
-    'a proxy on generator.rng) enter the model; nothing else of numpy is modelled',
-    'choice_* theorems are about the inverse-CDF function choice_of (first i with u < cdf_i); that numpy.Generator.choice '
-    'is this function of a uniform u in [0,1) is assumed',
-    'ratio_monotone reads numpy normal(loc) as loc + z with z standard normal (exact addition; float addition is monotone too)',
-    'that numpy normal is symmetric about its mean and random() uniform is assumed; class frequencies, mean gap, mean '
-    'operator count and the prototype shift are additionally TESTED statistically over seeded runs (dist: stat_*)',
+    'G-gen / G-script / G-bad (kind 15): the generator is a function of its draw stream: the values returned by rng.choice / '
+    'rng.normal (recorded by a proxy on generator.rng) enter the model',
+    'G-gen-u (kind 25): the class draw is NOT an input any more: the model gets the three configured probabilities and the uniform '
+    'double u that choice consumes (predicted from a clone of the bit generator state, and the state after choice is checked to be '
+    'the state after one random()); it computes priority_probs (left-to-right float sum, rounded divisions) and the class '
+    '(choice_float: float cumsum, division by the last entry, right-side search) and must reproduce self.priority_probs and every '
+    'priority of every pipeline bit-exactly. So "numpy.Generator.choice(a, p) = a[choice_float p u]" is CHECKED on every class draw '
+    'of that stream (numpy ' + np.__version__ + '), including u forced onto float cdf entries and their grid neighbours; it is not proved '
+    '(numpy is compiled code)',
+    'choice_float vs the exact inverse CDF choice_of: proved equal whenever u is not within the float error bound of an exact '
+    'boundary (C15_choice_float_close_to_exact*), in range, monotone, never a zero-probability class (C15_choice_float_*)',
+    'what remains trusted about numpy: that the doubles of the bit generator (random()) are uniform on the 2^-53 grid of [0,1) and '
+    'independent, and everything about normal(): ratio_monotone reads normal(loc) as loc + z with z standard normal (exact addition; '
+    'float addition is monotone too), symmetric about its mean; class frequencies, mean gap, mean operator count and the prototype '
+    'shift are additionally TESTED statistically over seeded runs (dist: stat_*)',
     'waiting_ticks_mean and num_operators are read from the real generator object and passed to the model',
 ]
-TRUSTED = ['rng proxy / scripted rng of harness/props/C15.py (records arguments and results of choice and normal)']
+TRUSTED = ['rng proxy / scripted rng of harness/props/C15.py (records arguments and results of choice and normal; for G-gen-u clones '
+           'the bit generator state to predict the uniform double, and sets the PCG64 state to place u on cdf boundaries - both '
+           'verified on the spot: prediction vs. state after the call, forced value vs. a clone)',
+           "numpy's bit generator (PCG64) and normal(): their outputs are recorded, not modelled"]
 
 # the documented prototypes (docstring of generate_segment_from_val, most I/O-heavy first) and the query one
 PROTOS = [(1, 'const', 55), (2, 'sqrt', 55), (5, 'linear3', 45), (15, 'linear3', 37.5),
@@ -67,10 +91,12 @@ class StreamError(Exception):
 class Recorder:
     """stands in for generator.rng; log entries: (kind, args tuple, kwargs dict, result)"""
 
-    def __init__(self, real=None, script=None, replay=None):
+    def __init__(self, real=None, script=None, replay=None, predict_u=False, force=None):
         self.real, self.script, self.replay = real, script, replay
         self.log = []
         self.pos = 0
+        self.predict_u, self.force = predict_u, force
+        self.uinfo = {}          # log index of a choice -> (u predicted from a clone, state after == clone's state, forced)
 
     def _answer(self, kind, a, kw):
         if self.replay is not None:
@@ -86,6 +112,16 @@ class Recorder:
         return getattr(self.real, kind)(*a, **kw)
 
     def choice(self, *a, **kw):
+        if self.predict_u and self.real is not None:
+            forced = False
+            if self.force is not None:
+                forced = self.force(self.real, kw.get('p'))
+            twin = clone_rng(self.real)
+            u = float(twin.random())
+            r = self.real.choice(*a, **kw)
+            self.uinfo[len(self.log)] = (u, self.real.bit_generator.state == twin.bit_generator.state, forced)
+            self.log.append(('choice', a, kw, r))
+            return r
         r = self._answer('choice', a, kw)
         self.log.append(('choice', a, kw, r))
         return r
@@ -102,6 +138,58 @@ class Recorder:
                 raise StreamError('unexpected rng method ' + name)
             return getattr(self.real, name)(*a, **kw)
         return other
+
+
+def clone_rng(real):
+    """a second numpy Generator in the same state (the twin's draws are what `real` would draw next)"""
+    twin = np.random.default_rng()
+    twin.bit_generator.state = copy.deepcopy(real.bit_generator.state)
+    return twin
+
+
+PCG_MULT = 0x2360ED051FC65DA44385DF649FCCF645          # PCG64's 128-bit LCG multiplier
+PCG_INV = pow(PCG_MULT, -1, 1 << 128)
+
+
+def force_next_double(real, u, salt):
+    """set the PCG64 state of `real` so that its next random() is u (a multiple of 2^-53 in [0,1)): PCG64 steps its
+    128-bit LCG and outputs rotr64(hi ^ lo, hi >> 58) of the new state; random() is (output >> 11) * 2^-53.
+    Verified on a clone; returns False (state untouched) when the prediction is not met."""
+    st = copy.deepcopy(real.bit_generator.state)
+    if st.get('bit_generator') != 'PCG64':
+        return False
+    k = int(F(u) * 2 ** 53)
+    if not (0 <= k < 2 ** 53) or F(k, 2 ** 53) != F(u):
+        return False
+    out = (k << 11) | (salt & 0x7ff)
+    m64 = (1 << 64) - 1
+    hi = (st['state']['state'] >> 64) & m64
+    rot = hi >> 58
+    lo = ((((out << rot) | (out >> (64 - rot))) & m64) if rot else out) ^ hi
+    st['state']['state'] = ((((hi << 64) | lo) - st['state']['inc']) * PCG_INV) & ((1 << 128) - 1)
+    twin = np.random.default_rng()
+    twin.bit_generator.state = copy.deepcopy(st)
+    if float(twin.random()) != u:
+        return False
+    real.bit_generator.state = st
+    return True
+
+
+def boundary_forcer(rng):
+    """for G-gen-u: with probability 1/2 per class draw move the generator onto a boundary of the float cdf of p
+    (the entry rounded down to the 2^-53 grid, or a grid neighbour), or onto 0 / the largest double below 1"""
+    def force(real, p):
+        if p is None or rng.random() < 0.5:
+            return False
+        cdf = np.asarray(p, dtype=float).cumsum()
+        cdf = cdf / cdf[-1]
+        c = F(float(rng.choice(list(cdf))))
+        k = int(c * 2 ** 53) + rng.choice([0, 0, -1, 1])
+        if rng.random() < 0.1:
+            k = rng.choice([0, 1, 2 ** 53 - 1, 2 ** 52])
+        k = min(max(k, 0), 2 ** 53 - 1)
+        return force_next_double(real, k / 2 ** 53, rng.randrange(2048))
+    return force
 
 
 def scripted(rng):
@@ -190,6 +278,19 @@ def enc_draws(log):
     return out
 
 
+def enc_udraws(log, uinfo):
+    out = [len(log)]
+    for i, (kind, a, kw, r) in enumerate(log):
+        if kind == 'choice' and i in uinfo:
+            out += [2] + Q(uinfo[i][0])
+        elif kind == 'normal':
+            mu = a[0] if a else kw.get('loc', 0.0)
+            out += [1] + Q(mu) + Q(float(r))
+        else:
+            out += [3]
+    return out
+
+
 def id_number(s):
     return int(s[1:]) if isinstance(s, str) and s[:1] == 'p' and s[1:].isdigit() else -1
 
@@ -213,7 +314,7 @@ def ladder_index(v):
 # ------------------------------------------------------------------------------------------------
 # the monitor: the property statement on what the implementation did (no model involved)
 
-def monitor(recipe, g, log, ticks, seeded):
+def monitor(recipe, g, log, ticks, seeded, uinfo=None):
     np_, probs = recipe['np'], [F(x) for x in recipe['probs']]
     hits = []
 
@@ -287,6 +388,33 @@ def monitor(recipe, g, log, ticks, seeded):
                 hit('rng-calls', f'class draw with a={a_arg} p={p_arg}, configured (interactive, query, batch)={recipe["probs"]}')
             if int(e[3]) != prio:
                 hit('rng-calls', f'tick {t}: {pid} has priority {prio}, the class draw returned {int(e[3])}')
+            if uinfo is not None:
+                # the class drawn from the uniform double u that choice consumed: class k is chosen exactly when
+                # cdf_{k-1} <= u < cdf_k for the cumulative configured probabilities (exact rationals of the configured
+                # doubles, divided by their sum), up to a relative slack of 1e-12 for the float rounding of the cdf;
+                # a class of probability 0 never
+                info = uinfo.get(cur[0] - 1)
+                order = [INTERACTIVE, QUERY, BATCH]
+                fp = [F(float(x)) for x in recipe['probs']]
+                if info is None:
+                    hit('choice-u', f'tick {t}: class draw of {pid} without a predicted uniform')
+                elif int(e[3]) not in order or sum(fp) <= 0:
+                    hit('choice-cdf', f'tick {t}: class draw returned {e[3]!r}, not one of {order}')
+                else:
+                    u, same_state, _ = info
+                    k = order.index(int(e[3]))
+                    lo, hi, slack = sum(fp[:k]) / sum(fp), sum(fp[:k + 1]) / sum(fp), F(1, 10 ** 12)
+                    if not same_state:
+                        hit('choice-state', f'tick {t}: class draw of {pid}: the generator state after choice is not the '
+                            'state after one random()')
+                    if fp[k] == 0:
+                        hit('choice-zero', f'tick {t}: u={u!r} selected class {k} (priority {int(e[3])}) whose configured '
+                            f'probability is 0, probs={recipe["probs"]}')
+                    if not (lo * (1 - slack) <= F(u) < hi * (1 + slack)):
+                        hit('choice-cdf', f'tick {t}: u={u!r} selected class {k} (priority {int(e[3])}), whose interval is '
+                            f'[{float(lo)!r}, {float(hi)!r}) for probs={recipe["probs"]}')
+                    if [float(x) for x in e[2].get('p', [])] != [float(x) for x in g.priority_probs]:
+                        hit('rng-calls', f'tick {t}: class draw with p={p_arg}, priority_probs={list(g.priority_probs)}')
             if prio == QUERY:
                 continue
             e = nxt('normal')
@@ -361,6 +489,19 @@ def run_case(recipe):
         inp = [recipe['np']] + Q(g.num_operators) + Q(recipe['ratio']) + [g.waiting_ticks_mean, recipe['nticks']] + enc_draws(log)
         obs = [-1] if stopped else enc_ticks(ticks) + [len(stream) - rec.pos]
         return dict(kind=KIND, inp=inp, obs=obs, recipe=recipe, gen=mode), [], dict(stopped=stopped, ticks=ticks, log=log, g=g)
+    if mode == 'G-gen-u':
+        import random
+        force = None
+        if recipe.get('fseed') is not None:
+            force = boundary_forcer(random.Random(f'force/{recipe["seed"]}/{recipe["fseed"]}'))
+        g, rec, ticks, stopped = drive(recipe, lambda real: Recorder(real=real, predict_u=True, force=force))
+        hits = monitor(recipe, g, rec.log, ticks, seeded=True, uinfo=rec.uinfo)
+        user = [x for p in recipe['probs'] for x in Q(float(p))]
+        inp = [recipe['np']] + Q(g.num_operators) + Q(recipe['ratio']) + [g.waiting_ticks_mean, recipe['nticks']] + user + \
+            enc_udraws(rec.log, rec.uinfo)
+        obs = [x for p in g.priority_probs for x in Q(float(p))] + enc_ticks(ticks) + [0]
+        return dict(kind=KIND_U, inp=inp, obs=obs, recipe=recipe, gen=mode), hits, \
+            dict(stopped=stopped, ticks=ticks, log=rec.log, g=g, uinfo=rec.uinfo)
     if mode == 'G-script':
         import random
         srng = random.Random(f'script/{recipe["seed"]}/{recipe["sseed"]}')
@@ -375,6 +516,10 @@ def run_case(recipe):
 
 PROBS = [(0.3, 0.1, 0.6), (1, 0, 0), (0, 1, 0), (0, 0, 1), (0.5, 0.5, 0), (0, 0.5, 0.5), (0.5, 0, 0.5),
          (1, 1, 1), (0.7, 0.2, 0.1), (0.001, 0.001, 0.998), (0.0, 0.9, 0.1), (2, 1, 1)]
+# for G-gen-u: tiny / huge ratios, unnormalised, triples whose float sum depends on the order of the additions
+PROBS_U = [(1e-9, 0, 1), (1e-17, 1e-17, 1), (3, 5, 7), (0.1, 0.2, 0.3), (1e-12, 1e-12, 1e-12), (0.124, 0.433, 0.562),
+           (0.719, 0.19, 0.342), (1e-200, 1, 1), (1, 1e-16, 1e-16), (0, 1e-20, 1), (1e6, 1, 3), (0.1, 0.7, 0.2),
+           (1 / 3, 1 / 3, 1 / 3), (0.25, 0.25, 0.5)]       # (subnormal quotients are outside rnd64's domain)
 TPS = [1, 2, 10, 60, 100, 1000, 10 ** 4, 10 ** 5]
 GAPS = [0, 0, 1, 1, 2, 3, 5, 8, 13, 25, 60, 120]
 
@@ -410,6 +555,23 @@ def gen_recipe(rng, mode):
     if mode == 'G-script':
         rec['sseed'] = rng.randrange(2 ** 31)
         rec['nticks'] = min(nticks, 120)
+    if mode == 'G-gen-u':
+        k = rng.random()
+        if k < 0.25:
+            pr = rng.choice(PROBS_U)
+        elif k < 0.5:
+            pr = tuple(rng.random() * 10 ** rng.randint(-9, 3) for _ in range(3))      # full mantissas, unnormalised
+        elif k < 0.65:
+            pr = [rng.random(), rng.random(), rng.random()]
+            pr[rng.randrange(3)] = 0
+            if rng.random() < 0.3:
+                pr[rng.randrange(3)] = 0
+        else:
+            pr = rec['probs']
+        if not sum(pr) > 0:
+            pr = (0.3, 0.1, 0.6)
+        rec['probs'] = list(pr)
+        rec['fseed'] = rng.randrange(2 ** 31) if rng.random() < 0.35 else None
     if mode == 'G-bad':
         rec['how'] = rng.choice(['truncate', 'truncate', 'kind'])
         rec['cut'] = rng.randrange(10 ** 6)
@@ -491,7 +653,8 @@ def run(ctx):
     cases, hits = [], []
     st = collections.Counter()
     seen = set()
-    plan = [('G-gen', ctx.budget(500, 12000)), ('G-script', ctx.budget(300, 8000)), ('G-bad', ctx.budget(80, 1500))]
+    plan = [('G-gen', ctx.budget(500, 12000)), ('G-script', ctx.budget(300, 8000)), ('G-bad', ctx.budget(80, 1500)),
+            ('G-gen-u', ctx.budget(400, 10000))]
     for mode, n in plan:
         for i in range(n):
             rng = ctx.case_rng(mode, i)
@@ -514,6 +677,19 @@ def run(ctx):
                 st['bad_' + rec['how']] += 1
                 continue
             ticks, log = info['ticks'], info['log']
+            if mode == 'G-gen-u':
+                pp = [float(x) for x in info['g'].priority_probs]
+                fc = np.asarray(pp).cumsum()
+                fc = [float(x) for x in fc / fc[-1]]
+                st['u_cases_with_forced_boundaries'] += rec['fseed'] is not None
+                st['u_cases_sum_order_matters'] += (pp[0] + pp[1]) + pp[2] != pp[0] + (pp[1] + pp[2])
+                for i, (u, same, forced) in info['uinfo'].items():
+                    st['u_class_draws'] += 1
+                    st['u_forced'] += forced
+                    st['u_equal_to_cdf_entry'] += u in fc
+                    st['u_within_2^-52_of_cdf_entry'] += any(abs(u - c) <= 2.0 ** -52 for c in fc)
+                    st['u_zero'] += u == 0.0
+                    st['u_largest_below_one'] += u == 1 - 2.0 ** -53
             ev = [t for t, b in enumerate(ticks) if b]
             st['ticks'] += len(ticks)
             st['events'] += len(ev)
@@ -550,6 +726,12 @@ def run(ctx):
                      'minutes at 1 tick/s)), <= 400 ticks; G-script: the same with a scripted rng answering boundary values '
                      '(ladder thresholds +- ulp, counts and gaps around 0 and 1); G-bad: truncated / wrong-kind streams replayed '
                      'strictly. Model (kind 15) fed the recorded draws vs. structure read from the real Pipeline objects. '
+                     'G-gen-u: as G-gen (plus tiny / unnormalised / order-sensitive probability triples) but the model (kind 25) gets '
+                     'the three configured probabilities and, per class draw, the uniform double predicted from a clone of the bit '
+                     'generator; it computes priority_probs and every priority itself (float cumsum, division, right-side search); '
+                     'in 35% of the cases the PCG64 state is set before class draws so that u is a float cdf entry or a 2^-53 grid '
+                     'neighbour. Monitor rule for these: cdf_{k-1} <= u < cdf_k (exact rationals, relative slack 1e-12), no class of '
+                     'probability 0, state after choice == state after one random(). '
                      'S-stat: statistical tests of class frequencies, mean gap, mean operator count, prototype shift '
                      '(dist stat_*). non-trivial = distinct inputs with >= 2 arrival events',
                 samples=[cases[0]['recipe'], cases[-1]['recipe']] if cases else [])
